@@ -339,6 +339,146 @@ class UpdateCachedStateNum:
     ensures = [caches_when_there_is_a_cache]
 
 
+# ------------------------------------------------------------------------------------------------- BLE detection callback
+
+
+class _BlePairingStub(StubObj):
+    """(the pairing-side handlers have their own contracts: _update_cached_state_num here, _async_notification under C18)"""
+
+    def m__async_description_update(self, it, data):
+        it.ctx.trace.append(("pairing_description_update", data))
+
+    def m__async_ble_update(self, it, device, adv):
+        it.ctx.trace.append(("pairing_ble_update", device))
+
+    def m__async_notification(self, it, data):
+        it.ctx.trace.append(("pairing_notification", data))
+
+    def sym_truth(self, it):
+        return True
+
+
+class _OldDiscovery(StubObj):
+    def __init__(self, name):
+        self.f_description = SObj(object, {"name": name}, label="old-description")
+        self.f_device = SObj(object, {"address": "AA:BB:CC:DD:EE:FF"}, label="old-device")
+
+    def m__async_process_advertisement(self, it, device, data, adv):
+        it.ctx.trace.append(("old_discovery_updated", data))
+
+    def sym_truth(self, it):
+        return True
+
+
+BLE_ID = "aa:bb:cc:dd:ee:ff"
+
+
+def _detected_setup(it):
+    """ANY manufacturer data bytes (or none); the parsers are used through their contracts (from_manufacturer_data: a parsed
+    object for this id, or ValueError); no / a loaded pairing; no / a known discovery (with a longer, shorter or no name);
+    0..2 waiters under the id, each pending or done, plus a pending waiter for another id"""
+    from aiohomekit.controller.ble.discovery import BleDiscovery
+
+    mfr = it.fresh(Bytes, "mfr_data")
+    has = bool(it.ctx.choose([1, 0]))
+    valid = bool(it.ctx.choose([1, 0]))
+    adv_name = [None, "N", "LongerName"][it.ctx.choose([0, 1, 2])]
+    parsed = SObj(HomeKitAdvertisement, {"id": BLE_ID, "name": adv_name}, label="parsed-advertisement")
+    parsed_n = SObj(HomeKitEncryptedNotification, {"id": BLE_ID}, label="parsed-notification")
+
+    def parse_adv(it, cls, name, address, md):
+        it.ctx.trace.append(("parse_adv",))
+        if not valid:
+            it.raise_exc(ValueError, "Not a HomeKit device")
+        return parsed
+
+    def parse_notif(it, cls, name, address, md):
+        it.ctx.trace.append(("parse_notif",))
+        if not valid:
+            it.raise_exc(ValueError, "Not a HomeKit encrypted notification")
+        return parsed_n
+
+    it.env.stub(HomeKitAdvertisement.from_manufacturer_data.__func__, parse_adv)
+    it.env.stub(HomeKitEncryptedNotification.from_manufacturer_data.__func__, parse_notif)
+
+    def mk_discovery(it, controller, device, data, adv):
+        d = SObj(object, {"description": data}, label="new-discovery")
+        it.ctx.ghost.setdefault("made", []).append(d)
+        return d
+
+    it.env.stub(BleDiscovery, mk_discovery)
+    c = SObj(BleController, label="ble")
+    with_pairing = bool(it.ctx.choose([1, 0]))
+    old = [None, _OldDiscovery("LongOldName"), _OldDiscovery("")][it.ctx.choose([0, 1, 2])]
+    nw = it.ctx.choose([0, 1, 2])
+    waiters = []
+    for k in range(nw):
+        f = FutureStub(f"waiter{k}")
+        f.state = ["pending", "cancelled"][it.ctx.choose([0, 1])]
+        f.state0 = f.state
+        waiters.append(f)
+    other = FutureStub("waiter-for-another-id")
+    c.fields.update(
+        pairings={BLE_ID: _BlePairingStub()} if with_pairing else {},
+        discoveries={BLE_ID: old} if old is not None else {},
+        _ble_futures={**({BLE_ID: list(waiters)} if nw else {}), "11:22:33:44:55:66": [other]},
+    )
+    it.ctx.ghost.update(mfr=mfr, has=has, valid=valid, parsed=parsed, parsed_n=parsed_n, with_pairing=with_pairing, old=old, waiters=waiters, other=other, made=[])
+    device = SObj(object, {"name": "N", "address": "AA:BB:CC:DD:EE:FF"}, label="device")
+    adv = SObj(object, {"manufacturer_data": {76: mfr} if has else {}}, label="advertisement")
+    return {"self": c, "device": device, "advertisement_data": adv}
+
+
+@contract("aiohomekit.controller.ble.controller:BleController._device_detected", prop="C19")
+class BleDetected:
+    """the scanner callback, for EVERY manufacturer data"""
+
+    setup = _detected_setup
+    raises = {}  # no advertisement makes the scanner callback raise
+
+    def valid_advertisement_wakes_every_waiter(self, ghost, trace):
+        """a valid regular advertisement: EVERY pending waiter under its id is completed with one discovery of that
+        advertisement, the list is emptied; the discovery is stored (or the known one updated); a loaded pairing hears
+        the description; waiters for other ids are untouched"""
+        if not (ghost["has"] and ghost["valid"] and any(e[0] == "parse_adv" for e in trace)):
+            return True
+        ws = ghost["waiters"]
+        woken = [w for w in ws if w.state0 == "pending"]
+        return (
+            all(w.state == "result" and w.value.description is ghost["parsed"] for w in woken)
+            and all(w.value is woken[0].value for w in woken)
+            and all(w.state == w.state0 for w in ws if w.state0 != "pending")
+            and len(self._ble_futures.get(BLE_ID, [])) == 0
+            and ghost["other"].state == "pending"
+            and len(self._ble_futures["11:22:33:44:55:66"]) == 1
+            and (
+                (ghost["old"] is None and self.discoveries[BLE_ID].description is ghost["parsed"])
+                or (ghost["old"] is not None and self.discoveries[BLE_ID] is ghost["old"] and any(e[0] == "old_discovery_updated" and e[1] is ghost["parsed"] for e in trace))
+            )
+            and (not ghost["with_pairing"] or any(e[0] == "pairing_description_update" and e[1] is ghost["parsed"] for e in trace))
+        )
+
+    def malformed_is_ignored(self, ghost, trace):
+        """no Apple data, a parser that rejects it, or an unknown type: nothing is woken, stored or announced"""
+        if ghost["has"] and ghost["valid"]:
+            return True
+        return (
+            all(w.state == w.state0 for w in ghost["waiters"])
+            and ghost["other"].state == "pending"
+            and (BLE_ID in self.discoveries) == (ghost["old"] is not None)
+            and not any(e[0] in ("pairing_description_update", "pairing_notification", "old_discovery_updated") for e in trace)
+        )
+
+    def notification_goes_to_the_pairing_only(ghost, trace):
+        """an encrypted-notification advertisement wakes nobody; it is handed to the loaded pairing, exactly once"""
+        if not any(e[0] == "parse_notif" for e in trace):
+            return True
+        n = [e for e in trace if e[0] == "pairing_notification"]
+        return all(w.state == w.state0 for w in ghost["waiters"]) and len(n) == (1 if (ghost["valid"] and ghost["with_pairing"]) else 0)
+
+    ensures = [valid_advertisement_wakes_every_waiter, malformed_is_ignored, notification_goes_to_the_pairing_only]
+
+
 # ------------------------------------------------------------------------------------------------- mDNS record parsing
 
 
